@@ -32,11 +32,13 @@ func init() { drivers.Register("C11", "exploration", run) }
 // a server that is still computing gets this long before it is called hung (set per tier)
 var busyMax = 150 * time.Second
 
+// the server sits idle (no CPU time used) for two such windows: then it waits for input (set per tier)
+var idleWindow = 5 * time.Second
+
 const (
-	watch      = 20 * time.Second // no completion within this => the line is not answered
-	idleWindow = 5 * time.Second  // ... unless the server sits idle (no CPU time used) for two such windows: then it waits for input
-	bloatKiB   = 300 * 1024       // growth of the resident set during one line
-	spinTicks  = 40               // CPU ticks (1/100 s) per second that count as "still running"
+	watch     = 20 * time.Second // no completion within this => the line is not answered ...
+	bloatKiB  = 300 * 1024       // growth of the resident set during one line
+	spinTicks = 10               // CPU ticks (1/100 s) per second that count as "still running" (an idle server uses 0 to 2)
 )
 
 type shared struct {
@@ -74,6 +76,7 @@ type world struct {
 	suspects []suspect       // sequences whose connection was closed since the server was last seen idle
 	isolated bool            // this world re-runs one suspect alone: no CPU checks inside the steps
 	found    map[string]bool // isolated world: the keys it would have reported
+	patient  bool            // isolated world that confirms a clock verdict: no short cuts for known signatures
 }
 
 // suspect: a replayed prefix of a sequence, after which the client closed the connection.
@@ -168,7 +171,7 @@ func (w *world) confirmed(key string) bool {
 			nw.stop()
 		}
 	}()
-	nw.isolated, nw.found = true, map[string]bool{}
+	nw.isolated, nw.patient, nw.found = true, true, map[string]bool{}
 	nw.rend = sess.NewRenderer(w.seed)
 	nw.rend.Heavy, nw.heavy = w.heavy, w.heavy
 	nw.start = w.curB.Start
@@ -238,7 +241,7 @@ func (w *world) await(c *sess.Conn, line *sess.Line, sig string) (sess.Outcome, 
 	w.sh.mu.Lock()
 	known := w.sh.silent[sig]
 	w.sh.mu.Unlock()
-	if w.isolated {
+	if w.patient {
 		known = "" // a confirmation run takes its time
 	}
 	t0 := time.Now()
@@ -857,8 +860,9 @@ func run(r *ev.Run, tier, replay string) {
 	seed := ev.Seed()
 	sh := &shared{silent: map[string]string{}, instances: map[string]bool{}, classes: map[string]bool{}, perClass: map[string]int64{}, spinDone: map[string]int{}}
 	heavy := []int{1000000}
-	busyMax = 30 * time.Second
+	busyMax, idleWindow = 30*time.Second, 3*time.Second
 	if tier == "thorough" {
+		idleWindow = 5 * time.Second
 		heavy = []int{1000000, 2000000, 4000000}
 		busyMax = 150 * time.Second
 	}
@@ -963,7 +967,7 @@ func run(r *ev.Run, tier, replay string) {
 	r.Set("rule", "classes: TLC enumerates exhaustively every sequence of input classes of the configured length from each start phase (NotAuth, Auth, Selected) and the whole graph of the consecutive-error counter, with the acceptable results; bytes: each class occurrence is rendered as one of several concrete byte strings chosen by the seed (VERIF_SEED); evaluations = lines sent; non-trivial = a malformed / odd / cut-off line (not the valid commands in between); distinct = distinct (class, byte string). classes covered and instances tried are reported separately (input_classes_covered, phase_class_pairs_covered, malformed_instances_tried_distinct)")
 	r.Assumptions = []string{
 		"inside a class the bytes are sampled, not exhausted: the claim is exploration, not model checking",
-		"hang: no completion although the server has used 24 s (quick) / 120 s (thorough) of CPU time on the line and is still computing; not answered: no completion and the server used no CPU time for 10 s (it waits for input); bloat: resident set +300 MiB during one line; spinning: on average more than 10% of a core over three seconds with no client connected to the worked connection",
+		"hang: no completion although the server has used 24 s (quick) / 120 s (thorough) of CPU time on the line and is still computing; not answered: no completion while the server used no CPU time for 6 s (quick) / 10 s (thorough), answered another session promptly, and the same happened again when the sequence was replayed alone on a fresh server; bloat: resident set +300 MiB during one line; spinning: on average more than 10% of a core over three seconds with no client connected to the worked connection",
 		"a heavy line (10^6 nesting, 1 MB atom) is only explored as the first line of a sequence, followed by one NOOP",
 		"raw TLS hello: the client gives up after sending it; whether the server answers BAD or closes is not judged",
 		"the servers run without TLS; login jail time 1 ms so that failed logins inside malformed lines do not delay later lines",
